@@ -32,7 +32,10 @@ impl Src {
                 let full = format!("/repo/{rel}");
                 (std::fs::read_to_string(&full).unwrap_or_default(), Some(PathBuf::from(full)))
             }
-            Src::Text(t) => (t.clone(), None),
+            Src::Text(t) => {
+                let p = if t.contains("include(") { Some(scratch_dir().join("job.mmm")) } else { None };
+                (t.clone(), p)
+            }
         }
     }
     fn label(&self) -> String {
@@ -70,6 +73,20 @@ pub struct Scenario {
     pub relocate: bool,
     /// when set: replay this shuttle schedule instead of exploring
     pub schedule: Option<String>,
+    /// files the jobs include (name, content), written into the scratch directory first
+    #[serde(default)]
+    pub libs: Vec<(String, String)>,
+    /// compute the alone results before (true) or after (false) the concurrent exploration: a
+    /// process-wide cache warmed by the alone runs would otherwise hide first-use windows
+    #[serde(default)]
+    pub alone_first: bool,
+}
+
+fn scratch_dir() -> PathBuf {
+    let exe = std::env::current_exe().unwrap_or_else(|_| PathBuf::from("/verif/sim/conc/target/release/conc"));
+    let d = exe.parent().unwrap().join("simlibs").join(format!("{}", std::process::id()));
+    let _ = std::fs::create_dir_all(&d);
+    d
 }
 
 #[derive(Clone, Debug, Serialize, Deserialize, PartialEq)]
@@ -187,6 +204,67 @@ struct Verdict {
     schedule_file: Option<String>,
 }
 
+/// Exploration that only records every execution's results (compared afterwards).
+fn explore_recording(sc: &Scenario) -> (Vec<Vec<JobResult>>, Option<(String, String)>) {
+    let jobs = sc.jobs.clone();
+    let log: std::sync::Arc<std::sync::Mutex<Vec<Vec<JobResult>>>> = Default::default();
+    let log2 = log.clone();
+    let body = move || {
+        let handles: Vec<_> = jobs
+            .iter()
+            .cloned()
+            .map(|j| shuttle::thread::spawn(move || run_job(&j)))
+            .collect();
+        let results: Vec<JobResult> = handles
+            .into_iter()
+            .map(|h| h.join().unwrap_or(JobResult::Panicked("join failed".into())))
+            .collect();
+        log2.lock().unwrap().push(results);
+    };
+    let r = catch_unwind(AssertUnwindSafe(|| {
+        match sc.sched {
+            SchedKind::Random => {
+                Runner::new(RandomScheduler::new_from_seed(sc.sched_seed, sc.iterations), sh_config(None)).run(body)
+            }
+            SchedKind::Pct(d) => {
+                Runner::new(PctScheduler::new_from_seed(sc.sched_seed, d, sc.iterations), sh_config(None)).run(body)
+            }
+        };
+    }));
+    let failure = match r {
+        Ok(_) => None,
+        Err(p) => {
+            let msg = if let Some(s) = p.downcast_ref::<&str>() {
+                s.to_string()
+            } else if let Some(s) = p.downcast_ref::<String>() {
+                s.clone()
+            } else {
+                "panic".into()
+            };
+            let clause = if msg.to_lowercase().contains("deadlock") {
+                "deadlock"
+            } else if msg.contains("max_steps") {
+                "step-bound-exceeded"
+            } else {
+                "panic-outside-job"
+            };
+            Some((clause.to_string(), msg))
+        }
+    };
+    let v = log.lock().unwrap().clone();
+    (v, failure)
+}
+
+fn mismatch_kind(got: &JobResult, exp: &JobResult) -> &'static str {
+    match (got, exp) {
+        (JobResult::Panicked(_), _) => "job-panicked",
+        (JobResult::Diagnostics(_), JobResult::Ran { .. }) => "spurious-diagnostics",
+        (JobResult::Ran { .. }, JobResult::Diagnostics(_)) => "missing-diagnostics",
+        (JobResult::Diagnostics(_), JobResult::Diagnostics(_)) => "different-diagnostics",
+        _ => "different-result",
+    }
+}
+
 fn explore(sc: &Scenario, expected: &[JobResult], persist_dir: &str) -> Verdict {
     let jobs = sc.jobs.clone();
     let expected = expected.to_vec();
@@ -297,6 +375,12 @@ const FILES: &[&str] = &[
     "crates/lib/mimium-test/tests/mmm/parameter_pack_record.mmm",
     "crates/lib/mimium-test/tests/mmm/let_tuple_nested.mmm",
     "crates/lib/mimium-test/tests/mmm/auto_spread_macro_stage.mmm",
+    // programs that load other files (shared between jobs): `mod file`, `use`, `include`
+    "crates/lib/mimium-test/tests/mmm/module_external.mmm",
+    "crates/lib/mimium-test/tests/mmm/module_external_use.mmm",
+    "crates/lib/mimium-test/tests/mmm/test_include.mmm",
+    "crates/lib/mimium-test/tests/mmm/macro_quote_imported_global_function.mmm",
+    "crates/lib/mimium-test/tests/mmm/imported_core_generic_nested_array.mmm",
 ];
 
 const WORDS: [&str; 16] = [
@@ -309,9 +393,24 @@ const WORDS: [&str; 16] = [
 /// glob imports of two modules exporting the same name, and a neighbour that merely uses the same
 /// spellings as ordinary identifiers.
 fn gen_special(r: &mut Rng) -> String {
+    let which = r.below(6);
+    gen_special_of(r, which)
+}
+
+fn gen_special_of(r: &mut Rng, which: u64) -> String {
     let mut w: Vec<&str> = WORDS.to_vec();
     r.shuffle(&mut w);
-    match r.below(5) {
+    match which {
+        // staged program whose main-stage `let` has several sibling nested tuple patterns (each
+        // sibling gets a generated temporary name during staging translation)
+        5 => {
+            let v: Vec<String> = (0..8).map(|_| format!("{:.1}", r.range(1, 9) as f64)).collect();
+            format!(
+                "#stage(macro)\nfn one{m}(){{\n  `{{ 1.0 }}\n}}\n#stage(main)\nfn gen{m}(){{\n  (({}, {}), ({}, {}), ({}, {}), ({}, {}))\n}}\nfn dsp(){{\n  let ((a, b), (c, d), (e, f), (g, h)) = gen{m}()\n  (((((((a * 10.0 + b) * 10.0 + c) * 10.0 + d) * 10.0 + e) * 10.0 + f) * 10.0 + g) * 10.0 + h) * one{m}!()\n}}\n",
+                v[0], v[1], v[2], v[3], v[4], v[5], v[6], v[7],
+                m = w[0]
+            )
+        }
         0 => format!(
             "#stage(macro)\nfn {m}(){{\n    str_to_number(\"{}\") |> lift_f\n}}\n#stage(main)\nfn dsp(){{\n    {m}!() * {}\n}}\n",
             ["0.25", "1.5", "12.0", "3.75"][r.below(4) as usize],
@@ -397,9 +496,14 @@ fn gen_scenario(seed: u64) -> Scenario {
     let mut r = root.sub("workload");
     let k = r_cfg.range(2, 4) as usize;
     let identical = r_cfg.chance(1, 4);
+    // family: every job is an instance of the same special template (same shape, other constants
+    // and names), so all threads go through the same compiler phases at the same time
+    let same_template = if r_cfg.chance(1, 5) { Some(r_cfg.below(6)) } else { None };
     let mut jobs = vec![];
     for i in 0..k {
-        let src = if identical && i > 0 {
+        let src = if let Some(t) = same_template {
+            Src::Text(gen_special_of(&mut r, t))
+        } else if identical && i > 0 {
             jobs[0_usize..1].iter().map(|j: &Job| j.src.clone()).next().unwrap()
         } else if r.chance(1, 2) {
             Src::Text(gen_text(&mut r))
@@ -412,9 +516,35 @@ fn gen_scenario(seed: u64) -> Scenario {
             wasm: r.chance(1, 3),
         });
     }
+    // jobs that include one generated library file (never seen by this process before)
+    let mut libs = vec![];
+    if r_cfg.chance(1, 3) {
+        let name = format!("lib_{seed:016x}.mmm");
+        let nfn = r.range(10, 50);
+        let mut lib = String::new();
+        for i in 0..nfn {
+            lib.push_str(&format!(
+                "fn lib_fn_{i}(x){{\n  let y = x * {:.1} + {:.1}\n  y - x * {:.1}\n}}\n",
+                (i + 2) as f64,
+                (r.range(0, 9) * 100 + i) as f64,
+                (i + 1) as f64
+            ));
+        }
+        lib.push_str(&format!("fn libvalue(){{\n  lib_fn_0(1.0) + lib_fn_7(2.0) + lib_fn_{}(3.0)\n}}\n", nfn - 1));
+        libs.push((name.clone(), lib));
+        let n_users = r.range(2, k as u64) as usize;
+        for (i, j) in jobs.iter_mut().enumerate().take(n_users) {
+            j.src = Src::Text(format!(
+                "include(\"./{name}\")\nfn dsp(){{\n  libvalue() * 2.0 + {:.1}\n}}\n",
+                (i * 3) as f64
+            ));
+        }
+    }
     Scenario {
         prop: "C19".into(),
         seed,
+        libs,
+        alone_first: r_cfg.chance(1, 2),
         jobs,
         sched: if r_cfg.chance(1, 2) { SchedKind::Random } else { SchedKind::Pct(r_cfg.range(1, 5) as usize) },
         sched_seed: r_cfg.next_u64(),
@@ -434,8 +564,32 @@ fn emit(v: serde_json::Value) {
 }
 
 fn judge(sc: &Scenario, persist_dir: &str) -> serde_json::Value {
-    let expected = alone(&sc.jobs, sc.relocate);
-    let v = explore(sc, &expected, persist_dir);
+    for (name, content) in &sc.libs {
+        let _ = std::fs::write(scratch_dir().join(name), content);
+    }
+    let (expected, v) = if sc.alone_first || sc.schedule.is_some() {
+        let expected = alone(&sc.jobs, sc.relocate);
+        let v = explore(sc, &expected, persist_dir);
+        (expected, v)
+    } else {
+        let (runs, failure) = explore_recording(sc);
+        let expected = alone(&sc.jobs, sc.relocate);
+        let mut violation = failure;
+        if violation.is_none() {
+            'outer: for (it, results) in runs.iter().enumerate() {
+                for (k, (got, exp)) in results.iter().zip(expected.iter()).enumerate() {
+                    if got != exp {
+                        violation = Some((
+                            mismatch_kind(got, exp).to_string(),
+                            format!("schedule #{it}, job {k}: got {:?} expected {:?}", short(got), short(exp)),
+                        ));
+                        break 'outer;
+                    }
+                }
+            }
+        }
+        (expected, Verdict { violation, schedules: sc.iterations, schedule_file: None })
+    };
     let mut counters = serde_json::Map::new();
     counters.insert("schedules".into(), json!(v.schedules));
     counters.insert("jobs".into(), json!(sc.jobs.len()));
